@@ -516,9 +516,10 @@ func reachWithoutLoopHead(from, to *ssa.BasicBlock, fn *ssa.Function) bool {
 }
 
 func C09(c *Ctx) {
-	c.R.Explanation = "Decides structural necessary conditions of 'state is plain JSON data': (R1) every value the engine itself stores into bindings (error texts, lastNode, lastBindings, action error texts) is boxed from a JSON-shaped Go type — string, float64, bool, map[string]interface{}, []interface{} — never from a named map type or an integer type, because the matcher dispatches on dynamic Go types; (R2) the bindings an ECMAScript execution returns are the result of the JSON canonicalisation (or nil); (R3) the JSON form of State carries both fields unconditionally (no omitempty / '-' on node or bs), so that empty bindings do not come back as absent; (R4) nothing the engine stores into a bindings map is that same map (no self-containing state, which cannot be serialised). Behavioural equality of continued histories and number formatting are not decided."
+	c.R.Explanation = "Decides structural necessary conditions of 'state is plain JSON data': (R1) every value the engine itself stores into bindings (error texts, lastNode, lastBindings, action error texts) is boxed from a JSON-shaped Go type — string, float64, bool, map[string]interface{}, []interface{} — never from a named map type or an integer type, because the matcher dispatches on dynamic Go types; (R2) the bindings an ECMAScript execution returns are the result of the JSON canonicalisation (or nil); (R3) the JSON form of State carries both fields unconditionally (no omitempty / '-' on node or bs), so that empty bindings do not come back as absent; (R4) nothing the engine stores into a bindings map is that same map (no self-containing state, which cannot be serialised). (R5) every value the interpreter hands to Events.AddEmitted is the result of the JSON canonicalisation: a crew routes emitted messages in memory, where a raw int64 inside an array would be bound into another machine's state. Behavioural equality of continued histories and number formatting are not decided."
 	c.R.Rule("C09-R1", "E5", "engine-made binding values are JSON-shaped", 5)
 	c.R.Rule("C09-R2", "E5", "script results are canonicalised", 1)
+	c.R.Rule("C09-R5", "E5", "emitted messages are canonicalised (they can be routed in memory to other machines and bound there)", 1)
 	c.R.Rule("C09-R3", "E6", "State serialises both fields unconditionally", 2)
 	c.R.Rule("C09-R4", "E5", "a bindings map never contains itself", 2)
 	step := c.fn("core", "Spec", "Step")
@@ -646,6 +647,43 @@ func C09(c *Ctx) {
 			if !ok {
 				okCanon, whyC = false, "the returned bindings can be "+d.String()+", which did not go through the JSON canonicalisation: Go values that no reloaded state holds (e.g. int64 in an array) get into the state"
 			}
+		}
+	}
+	// ---- R5
+	{
+		addEmitted := c.P.Func("core", "Events", "AddEmitted")
+		canon := c.P.Func("core", "", "Canonicalize")
+		n5 := 0
+		var scope5 []*ssa.Function
+		for _, f := range pkgClosure(exec) {
+			if prog.PkgOf(f) == "interpreters/ecmascript" {
+				scope5 = append(scope5, f)
+			}
+		}
+		for _, f := range scope5 {
+			ssau.Instrs(f, func(in ssa.Instruction) {
+				ci, ok := in.(ssa.CallInstruction)
+				if !ok || addEmitted == nil || ci.Common().StaticCallee() != addEmitted {
+					return
+				}
+				n5++
+				okE := true
+				whyE := ""
+				ds := deepDefs(ci.Common().Args[1], []*ssa.Function{f})
+				for _, d := range ds {
+					ex, isEx := d.(*ssa.Extract)
+					if isEx && ex.Index == 0 {
+						if cl, isC := ex.Tuple.(*ssa.Call); isC && canon != nil && cl.Common().StaticCallee() == canon {
+							continue
+						}
+					}
+					okE, whyE = false, "the emitted value can be "+d.String()+" ("+c.posv(d)+"), not a Canonicalize result"
+				}
+				c.R.Check(okE && len(ds) > 0, "C09-R5", fmt.Sprintf("%s: emitted value #%d is canonical", fname(f), n5), c.pos(in), "AddEmitted(Canonicalize(x))", whyE+": a crew routes it in memory, and a machine that binds it differs from the same machine reloaded from JSON")
+			})
+		}
+		if n5 == 0 {
+			c.R.Break("C09-R5: the interpreter never calls Events.AddEmitted")
 		}
 	}
 	c.R.Check(okCanon, "C09-R2", "Exec: returned bindings are canonicalised", c.P.Pos(exec.Pos()), "Execution.Bs = Canonicalize(exported value) or nil", whyC)
